@@ -216,6 +216,27 @@ def execute(plan):
                     if np.max(np.abs(back2 - d[pos]) / d[pos]) > 1e-8:
                         viol("inverse", step, "which_distance(calc_path_loss(d)) != d for parameters %s" % st, rel="inverse_linear")
                         return
+        if model == "metis":
+            # wall counts given as an array: same shape, and broadcast along a non-leading axis (one count per room)
+            d2 = np.sort(10 ** rs.uniform(0, 3, size=(3, 4)), axis=1)
+            for wshape in ((3, 4), (3, 1), (1, 4)):
+                walls = rs.randint(0, 6, size=wshape)
+                wb = np.broadcast_to(walls, d2.shape)
+                ref2 = np.empty(d2.shape)
+                for idx_ in np.ndindex(d2.shape):
+                    ref2[idx_] = reference_dB(model, st, plan["cfg"], d2[idx_], int(wb[idx_]))
+                if np.any(ref2 < 0):
+                    continue
+                try:
+                    got2 = np.asarray(obj.calc_path_loss_dB(d2.copy(), num_walls=walls.copy()), dtype=float)
+                except Exception as e:
+                    viol("raises", step, "calc_path_loss_dB(d %s, num_walls %s) raised %s: %s" % (d2.shape, wshape, type(e).__name__, e), rel="walls_array")
+                    return
+                if got2.shape != d2.shape or np.max(np.abs(got2 - ref2)) > 1e-6:
+                    viol("formula", step, "array wall counts of shape %s with distances of shape %s: loss differs from the per-element loss by %.3g dB" % (
+                        wshape, d2.shape, float(np.max(np.abs(got2 - ref2))) if got2.shape == d2.shape else -1), rel="walls_array")
+                    return
+            bump(res["probes"], "metis_array_wall_counts")
         log.add("relations", step, {k: v for k, v in st.items()})
 
     try:
